@@ -123,7 +123,7 @@ Theorem tract_list_only_grows :
 Proof. intros. exact (proj1 (dapply_blob_rel _ _ _ _ _ _ _ _ H H0 H1 H2)). Qed.
 Print Assumptions tract_list_only_grows.
 
-(* [FULL] clause d with the F6 case carved out: across one Apply the version of an existing tract is unchanged, or is raised by exactly one as uint32 by the ChangeTract that names this tract and demands exactly that, or the command is a CommitRSChunk, which stores NewVersion unchecked, finding F6 *)
+(* [FULL] clause d: across one Apply the version of an existing tract is unchanged, or is raised by exactly one as uint32 by the ChangeTract that names this tract and demands exactly that, or is set to NewVersion by a CommitRSChunk entry naming this tract, and then NewVersion is the stored version plus one, the repair of finding F6, unless the entry carries NewVersion below 2, which the repaired command deliberately does not check *)
 Theorem tract_versions_change_only_by_one :
   forall d i c d' r id b b' m t t',
     dapply d i c = Some (d', r) -> cinv d ->
@@ -133,22 +133,43 @@ Theorem tract_versions_change_only_by_one :
 Proof. intros. exact (proj1 (proj2 (dapply_blob_rel _ _ _ _ _ _ _ _ H H0 H1 H2)) m t t' H3 H4). Qed.
 Print Assumptions tract_versions_change_only_by_one.
 
-(* [FULL] clause d as monotonicity: for every command other than CommitRSChunk and every stored version below 2^32 - 1 the version of an existing tract never decreases *)
+(* [FULL] clause d as monotonicity, no carve-out left for real versions: for every command whose CommitRSChunk entries, if any, carry NewVersion of at least 2, and every stored version below 2^32 - 1, the version of an existing tract never decreases and moves by at most one; what remains outside is exactly a CommitRSChunk entry with NewVersion 0 or 1, which the command stores unchecked *)
 Theorem tract_versions_never_decrease :
   forall d i c d' r id b b' m t t',
     dapply d i c = Some (d', r) -> cinv d ->
-    (forall cid cls hosts data, c <> CCommitRS cid cls hosts data) ->
+    (forall cid cls hosts data e, c = CCommitRS cid cls hosts data -> In e (concat data) -> 2 <= et_newver e) ->
     aget id (d_blobs d) = Some b -> aget id (d_blobs d') = Some b' ->
     nth_error (b_tracts b) m = Some t -> nth_error (b_tracts b') m = Some t' ->
-    t_version t + 1 < two32 -> t_version t <= t_version t'.
+    t_version t + 1 < two32 -> t_version t' = t_version t \/ t_version t' = t_version t + 1.
 Proof.
   intros d i c d' r id b b' m t t' H C Hc G G' N1 N2 Hb.
-  destruct (proj1 (proj2 (dapply_blob_rel _ _ _ _ _ _ _ _ H C G G')) m t t' N1 N2) as [E|[(idx & ver & hosts & _ & _ & _ & E)|(cid & cls & hosts & data & E)]].
-  - rewrite E. apply N.le_refl.
-  - rewrite E. unfold u32. rewrite N.mod_small by exact Hb. apply N.le_add_r.
-  - exfalso. eapply Hc; eauto.
+  destruct (proj1 (proj2 (dapply_blob_rel _ _ _ _ _ _ _ _ H C G G')) m t t' N1 N2)
+    as [E|[(idx & ver & hosts & _ & _ & _ & E)|(cid & cls & hosts & data & e & Ec & Hin & _ & _ & E & Hv)]].
+  - left. exact E.
+  - right. rewrite E. unfold u32. apply N.mod_small. exact Hb.
+  - pose proof (Hc _ _ _ _ _ Ec Hin) as H2. destruct Hv as [Hv|Hv]; [exfalso; apply (N.lt_irrefl 2); eapply N.le_lt_trans; eauto|].
+    right. rewrite E, Hv. unfold u32. apply N.mod_small. exact Hb.
 Qed.
 Print Assumptions tract_versions_never_decrease.
+
+(* [REFUTED] what remains of the carve-out: a CommitRSChunk entry with NewVersion below 2 is applied without any version check and sets the stored version 3 back to 1 *)
+Theorem commitrs_without_version_unchecked :
+  exists d d' b b' t t',
+    dapply_all d_init (firstn 7 f6_cmds) = Some (d, [[2; 1]; [3; 0]; [5; 4294967297; 0]; [6; 0; 1]; [1; 0]; [1; 0]; [9; 0; 2147483649; 1]]) /\
+    dapply d 8 (CCommitRS (2147483649, 1) c_ClassRS63 [1; 2; 3; 4; 5; 6; 7; 8; 9]
+                 [[mkET 4294967297 0 0 100 1]; []; []; []; []; []]) = Some (d', [1; e_NoError]) /\
+    aget 4294967297 (d_blobs d) = Some b /\ aget 4294967297 (d_blobs d') = Some b' /\
+    nth_error (b_tracts b) 0 = Some t /\ nth_error (b_tracts b') 0 = Some t' /\
+    t_version t = 3 /\ t_version t' = 1.
+Proof.
+  pose (d := match dapply_all d_init (firstn 7 f6_cmds) with Some (d, _) => d | None => d_init end).
+  pose (d' := match dapply d 8 (CCommitRS (2147483649, 1) c_ClassRS63 [1; 2; 3; 4; 5; 6; 7; 8; 9]
+                 [[mkET 4294967297 0 0 100 1]; []; []; []; []; []]) with Some (d', _) => d' | None => d_init end).
+  pose (bb := fun x : dstate => match aget 4294967297 (d_blobs x) with Some b => b | None => mkBlob 9 9 9 9 9 9 9 [] end).
+  pose (tt := fun x : dstate => match nth_error (b_tracts (bb x)) 0 with Some t => t | None => mkTract [] 99 None None None None end).
+  exists d, d', (bb d), (bb d'), (tt d), (tt d'). repeat (match goal with |- _ /\ _ => split end); vm_compute; reflexivity.
+Qed.
+Print Assumptions commitrs_without_version_unchecked.
 
 (* [FULL] clause e: a blob marked deleted is returned by no lookup, and across one Apply it is either gone, which by live_blob_never_removed only a FinishDelete naming it does, or exactly unchanged, unless the command is an Undelete *)
 Theorem deleted_blob_invisible_and_unchanged :
